@@ -54,20 +54,21 @@ PROP = {
     "props_module": "FV.Props.C11",
     "generate": [generate_census11],
     "builders": {"cc": V.build_cc, "frugal": V.build_frugal, "javaparse": build_javaparse},
-    "suites": [("cc", "c11", {"quick": 96, "thorough": 960}), ("cc", "c11ops", {"quick": 4000, "thorough": 150000})],
-    "suite_kind": {"c11": "cc", "c11ops": "cc"},
-    "rule": "Suite c11, per program index: (A) one random VALID multi-file IDL program (1-3 files in an include DAG; enums, typedefs incl. acyclic chains of up to 60 hops declared in either order, structs/unions/exceptions with 0-6 fields of base, named, include-qualified and nested container types, defaults, constants of every type incl. references, services with extends (also across includes), oneway, throws, annotations, docstrings, scopes with static and variable prefixes, namespaces; identifier-shape family: lower, Title, snake, camel, Pascal, SCREAMING, digit suffix, leading/trailing/double/multiple underscores, single letters, reserved-word-adjacent names) compiled by the real binary for all 8 targets x {no options, one random option subset}; (B) one program with ONE injected invalidity of a kind validate/parseFrugal checks (28 kinds, cycled), one with a kind nothing checks (12 kinds), two mutated texts (span delete/insert token/bit flip/truncate/duplicate/line delete/line swap) and one arbitrary text (random bytes, token soup, nesting 20-200 deep), each compiled for one random target. Per valid program also: 8 probe constants `const T zz_probe = v` with T a random type of the main file and v a value built to fit T (35%: with one node replaced by a misfit) through the real generateConstantValue (op gcv); the in-process front-end verdict (op val) and UnderlyingType of every typedef name, include-qualified typedef name and a sample of field types (op und). Suite c11ops: random strings over an identifier/option alphabet through snakeToCamel, title, titleServiceName, LowercaseFirstLetter, includeNameToReference, CleanGenParam. NAMING PROBES (totality_names.go): a fixed program in which every declared type is referenced as a type in fields, containers, method arguments / returns / throws and scope operations, locally and through an include, gets names from a pool of 103 (snake / SCREAMING / camel / Pascal variants, new_/New prefixes, _args/Args/_result/Result suffixes, Go initialisms, leading/trailing/double underscores, _, single letters, keywords / builtins / generated helper names of the targets: type func range class final def None self error Error String Read Write Equals hashCode toString client processor ctx result args success …) in 22 positions (struct, union, exception, enum, typedef — each also in the included file —, enum value, constant, service, extended service, method, field, argument, throws field, scope, operation, prefix variable, include file name, namespace): the first job of every run compiles a deterministic cover of 47 programs that together contain EVERY clean combination of the 43 casing names with the 17 type/member positions (clean = fails for no target on the unchanged tree), and 25% of the remaining programs are single (name, position) probes drawn from the whole matrix; suite c11names (development) runs the whole matrix. The (name, position, target) combinations that fail on the unchanged tree are listed in known/c11_names_expected.json, each under a recorded finding. Excluded from the valid stream, each a recorded finding with a replayed witness: see KNOWN_FINDINGS.txt property=C11 (21 ids).",
+    "suites": [("cc", "c11", {"quick": 96, "thorough": 960}), ("cc", "c11ops", {"quick": 4000, "thorough": 150000}),
+               ("cc", "c11cli", {"quick": 300, "thorough": 6000})],
+    "suite_kind": {"c11": "cc", "c11ops": "cc", "c11cli": "cc"},
+    "rule": "Suite c11, per program index: (A) one random VALID multi-file IDL program (1-3 files in an include DAG; enums, typedefs incl. acyclic chains of up to 60 hops declared in either order, structs/unions/exceptions with 0-6 fields of base, named, include-qualified and nested container types, defaults, constants of every type incl. references, services with extends (also across includes), oneway, throws, annotations, docstrings, scopes with static and variable prefixes, namespaces; identifier-shape family: lower, Title, snake, camel, Pascal, SCREAMING, digit suffix, leading/trailing/double/multiple underscores, single letters, reserved-word-adjacent names) compiled by the real binary for all 8 targets x {no options, one random option subset}; (B) one program with ONE injected invalidity of a kind validate/parseFrugal checks (28 kinds, cycled), one with a kind nothing checks (12 kinds), two mutated texts (span delete/insert token/bit flip/truncate/duplicate/line delete/line swap) and one arbitrary text (random bytes, token soup, nesting 20-200 deep), each compiled for one random target. Per valid program also: 8 probe constants `const T zz_probe = v` with T a random type of the main file and v a value built to fit T (35%: with one node replaced by a misfit) through the real generateConstantValue (op gcv); the in-process front-end verdict (op val) and UnderlyingType of every typedef name, include-qualified typedef name and a sample of field types (op und). Suite c11cli (the command-line layer, main.go): the real binary as `frugal [-gen g] [-r] -out <fresh dir> f1 .. fk`, k = 1..4, every fi one of valid / empty (valid) / syntax error / semantic error / missing file / directory — all 258 sequences with k <= 3 in every run plus random sequences with k = 4 —, g cycling over the eight targets, option strings, an unknown option, an unknown language and no -gen at all; oracle: exit 0 iff every file is valid and -gen is accepted, otherwise non-zero WITH a message, never a crash / panic trace / hang; model cliMain (the loop stops at the first failing file): exit status and, per valid file, whether its output exists. Suite c11ops: random strings over an identifier/option alphabet through snakeToCamel, title, titleServiceName, LowercaseFirstLetter, includeNameToReference, CleanGenParam. NAMING PROBES (totality_names.go): a fixed program in which every declared type is referenced as a type in fields, containers, method arguments / returns / throws and scope operations, locally and through an include, gets names from a pool of 103 (snake / SCREAMING / camel / Pascal variants, new_/New prefixes, _args/Args/_result/Result suffixes, Go initialisms, leading/trailing/double underscores, _, single letters, keywords / builtins / generated helper names of the targets: type func range class final def None self error Error String Read Write Equals hashCode toString client processor ctx result args success …) in 22 positions (struct, union, exception, enum, typedef — each also in the included file —, enum value, constant, service, extended service, method, field, argument, throws field, scope, operation, prefix variable, include file name, namespace): the first job of every run compiles a deterministic cover of 47 programs that together contain EVERY clean combination of the 43 casing names with the 17 type/member positions (clean = fails for no target on the unchanged tree), and 25% of the remaining programs are single (name, position) probes drawn from the whole matrix; suite c11names (development) runs the whole matrix. The (name, position, target) combinations that fail on the unchanged tree are listed in known/c11_names_expected.json, each under a recorded finding. Excluded from the valid stream, each a recorded finding with a replayed witness: see KNOWN_FINDINGS.txt property=C11 (21 ids).",
     "trusted": ["Modelled, not verified: Go's run-time checks on index/slice expressions (FV.Compile.goIndex/goSliceTo), strings.Split/FieldsFunc/ToUpper on ASCII, Go map assignment (last wins)",
                 "harness/extract11 (go/ast census extractor) and its committed expectation known/c11_census_expected.json (each site read by hand)",
                 "External parsers/compilers used as well-formedness judges: go build against /repo/lib/go, CPython compile() (2.7.18 for py and py:tornado, 3.x for py:asyncio), javac's parser (JavacTask.parse, no attribution), encoding/json, Python's html.parser (tag balance), our bracket/string/comment balance lexer for Dart",
                 "Go batches: a generated package that does not even load (syntax error, invalid package name) makes go build stop before it type-checks the other packages of the batch; the harness moves failing trees away and rebuilds until a build is clean", "The harness's classification of a run (exit status, output patterns for Go runtime crashes, 20 s watchdog; an exit-1 run is re-executed in-process under recover to tell a recovered panic from a returned error exactly)"],
-    "level_text": "Theorems (Lean 4) about an executable model of the shared front end (parseFrugal's include traversal, (*Frugal).validate with all its parts in code order, isValidType, the typedef step shared by UnderlyingType and the new cycle check, UnderlyingType itself with running out of stack as an explicit outcome) and of the Go casing path (snakeToCamel, title, titleServiceName, LowercaseFirstLetter, includeNameToReference, CleanGenParam) that keeps Go's run-time checks as explicit panic outcomes, against a declarative specification Valid / ValidProg written over the abstract syntax without calling any validator (names of every referenced type resolve — field, argument, return, throws, typedef target, scope operation, constant —, constant references resolve, typedef graph acyclic, field ids unique per struct-like and per argument list, service/method/scope/operation names distinct up to first-letter case, oneway methods void and without throws, no duplicate include, includes resolve and are acyclic): validate returns nil EXACTLY on the valid files (both directions, so Valid is decidable); a valid program is accepted by the whole front end and reaches no modelled panic site on the Go path; every file that is not Valid gets an ERROR from validate, never a panic (18 invalidity kinds one by one, plus missing / circular / badly named includes); for EVERY identifier string the Go casing helpers and -gen parsing never panic; on EVERY validated file typedef resolution terminates for every type within (visible typedefs + 2) frames, so the stack overflow is unreachable; EVERY typedef cycle is rejected (the bounded walk is exact: pigeonhole); a constant value or field default that FITS its declared type (inductive typing relation Fits) goes through the Go generator's generateConstantValue / ContextFromIdentifier / KeyToString / FindStruct without a panic (every type assertion finds the dynamic type it asserts); every syntactically partial operation of main.go and compiler/** (173 sites, regenerated from source on every run) is classified. Tied to the code by in-process correspondence of the real functions with the model (verdict and error class of parse+validate on valid and injected-invalid programs, UnderlyingType results, casing helpers on random strings, generateConstantValue on fitting and deliberately misfitting constant values: ok / panic class) and by compiling random valid / invalid / mutated / arbitrary inputs with the real binary for all 8 targets, judging every emitted file with an external parser or compiler.",
+    "level_text": "Theorems (Lean 4) about an executable model of the shared front end (parseFrugal's include traversal, (*Frugal).validate with all its parts in code order, isValidType, the typedef step shared by UnderlyingType and the new cycle check, UnderlyingType itself with running out of stack as an explicit outcome) and of the Go casing path (snakeToCamel, title, titleServiceName, LowercaseFirstLetter, includeNameToReference, CleanGenParam) that keeps Go's run-time checks as explicit panic outcomes, against a declarative specification Valid / ValidProg written over the abstract syntax without calling any validator (names of every referenced type resolve — field, argument, return, throws, typedef target, scope operation, constant —, constant references resolve, typedef graph acyclic, field ids unique per struct-like and per argument list, service/method/scope/operation names distinct up to first-letter case, oneway methods void and without throws, no duplicate include, includes resolve and are acyclic): validate returns nil EXACTLY on the valid files (both directions, so Valid is decidable); a valid program is accepted by the whole front end and reaches no modelled panic site on the Go path; every file that is not Valid gets an ERROR from validate, never a panic (18 invalidity kinds one by one, plus missing / circular / badly named includes); for EVERY identifier string the Go casing helpers and -gen parsing never panic; on EVERY validated file typedef resolution terminates for every type within (visible typedefs + 2) frames, so the stack overflow is unreachable; EVERY typedef cycle is rejected (the bounded walk is exact: pigeonhole); a constant value or field default that FITS its declared type (inductive typing relation Fits) goes through the Go generator's generateConstantValue / ContextFromIdentifier / KeyToString / FindStruct without a panic (every type assertion finds the dynamic type it asserts); the command line exits 0 EXACTLY when there is an input file, -gen is given and accepted and EVERY file compiles, else 1, and stops at the first failing file (c11_cli_iff, c11_cli_first); every syntactically partial operation of main.go and compiler/** (173 sites, regenerated from source on every run) is classified. Tied to the code by in-process correspondence of the real functions with the model (verdict and error class of parse+validate on valid and injected-invalid programs, UnderlyingType results, casing helpers on random strings, generateConstantValue on fitting and deliberately misfitting constant values: ok / panic class) and by compiling random valid / invalid / mutated / arbitrary inputs with the real binary for all 8 targets, judging every emitted file with an external parser or compiler.",
     "level_note": "PARTIAL, named plainly. (1) That every emitted file is well-formed source for its target is NOT a Lean theorem (no formal grammar of Go/Java/Dart/Python/HTML here): it is validated on the sampled programs only, by external parsers/compilers (Go: full type-check with go build against /repo/lib/go; Python: compile(); Java: javac parse only, no attribution; JSON: parse; HTML: tag balance; Dart: bracket/string/comment balance only — no Dart SDK in the sandbox). (2) The theorems cover panic-freedom and termination of the MODELLED sites of the shared front end and of the Go casing path; the Java/Dart/Python/HTML/JSON generator bodies are censused (every panic(, unchecked type assertion, constant index/slice, self-recursion is classified, each site read) but modelled only where shared (validate, UnderlyingType, LowercaseFirstLetter). compiler/parser/grammar.peg.go (generated by pigeon; its action code's assertions are shape-guaranteed by the grammar rules) is outside the census; it is exercised by the mutated/arbitrary texts. (3) Valid is exactly what validate is responsible for, NOT all of Thrift validity: duplicate struct/enum/typedef/constant/field names, constant values that do not fit their type, unknown or cyclic extends, duplicate ids in throws are checked by nothing in frugal and are therefore not in Valid (c11_unknown_extends_accepted_counterexample); constant-VALUE generation is modelled for the Go generator only (genConst; c11_fitting_constant_generates: a value that fits its type never panics); that a value fits is validated by nothing in frugal, so for ill-typed values the generators do panic (recovered, exit 1) — the model predicts that panic and its class (op gcv); the Java/Dart/Python/HTML constant-value code is censused (class const-value), not modelled. ValidProg lists the files so that each includes only later ones (= acyclic) and uses .frugal includes in one directory. (4) recovered-panic (main.go's recover -> 'Failed to generate', exit 1) is tolerated ONLY for the invalidity kinds nothing validates — read off the code: constant/default values that do not fit their type, unresolved Enum.VALUE / constant references inside values, duplicate struct/enum/typedef/constant/field/enum-value names, unknown or cyclic extends, duplicate ids in throws; for those even exit 0 is tolerated and recorded as finding unchecked-semantic-errors; a crash, hang or silent failure is never tolerated; for every kind validate/parseFrugal checks (28) the oracle demands a diagnostic. On mutated/arbitrary texts a recovered panic is tolerated only when its message is one of the explicit panic(...) calls of constant-value generation (census class const-value); run-time errors (index, nil, slice) are violations. (5) 21 recorded findings restrict the valid stream (KNOWN_FINDINGS.txt); each witness is replayed on every run.",
     "assumptions": ["RANDOM programs draw identifiers from a word list that avoids target-language reserved words and names of locals/members of the generated code; the naming probes put exactly such names (and every casing shape) into every declaration position, one at a time or in the clean cover",
                     "declared names of one scope are distinct after removing underscores and case (no two declarations collide under any target's case conversion)",
                     "ASCII identifiers and string constants (the grammar's Identifier is ASCII)",
                     "container nesting depth <= 200 in arbitrary texts: generators take time cubic in the nesting depth (depth 1000: 12-34 s), not treated as a hang",
                     "a service does not redefine a method of a service it extends; a method throws each exception type once",
-                    "options use_vendor (needs vendor annotations) and thrift_import/frugal_import are not exercised"],
+                    "the -help / -version / -audit branches of main.go are not exercised here (-audit: C18 suite c18cli)", "options use_vendor (needs vendor annotations) and thrift_import/frugal_import are not exercised"],
     "technique": "Lean 4 theorems about a hand-written executable model with explicit panic outcomes; model tied to /repo by in-process differential correspondence, a regenerated census of partial operations, and whole-compiler runs judged by external parsers/compilers",
 }
